@@ -1,4 +1,5 @@
-(* The property theorems restated for the tokenizer built from the translated scanners. *)
+(* The property theorems restated for the entry point translated from options.py
+   (options_to_items_full: every function and the class StreamBuffer are translated code). *)
 From Coq Require Import List NArith Bool.
 From MV Require Import Base.PyStr.
 From MV Require Import Base.Res.
@@ -7,21 +8,30 @@ From MV Require Import Opt.OptSafe.
 From MV Require Import Opt.YamlSpec.
 From MV Require Import Opt.OptAgreeAll.
 From MV Require Import Opt.OptNul.
+From MV Require Import Gen.OptSrc.
 From MV Require Import Opt.OptSrcTop.
 From MV Require Import Opt.OptSrcCompose.
+From MV Require Import Opt.OptSrcGlue.
+From MV Require Import Opt.OptSrcFull.
 Import ListNotations.
 Open Scope N_scope.
 
-Theorem terminates_src text : options_to_items_src text <> Raise OutOfFuel.
-Proof. rewrite options_to_items_src_eq. apply terminates. Qed.
+Theorem full_refines text : options_to_items_full text = options_to_items text.
+Proof. rewrite options_to_items_full_eq. apply options_to_items_src_eq. Qed.
+
+Theorem terminates_src text : options_to_items_full text <> Raise OutOfFuel.
+Proof. rewrite full_refines. apply terminates. Qed.
+
+Theorem in_bounds_src text : options_to_items_full text <> Raise IndexError.
+Proof. rewrite full_refines. apply in_bounds. Qed.
 
 Theorem only_tokenize_error_src text :
-  (exists pairs, options_to_items_src text = Ok pairs) \/
-  (exists p, options_to_items_src text = Raise (TokenizeError p) /\ p <= N.of_nat (length text)).
-Proof. rewrite options_to_items_src_eq. apply only_tokenize_error. Qed.
+  (exists pairs, options_to_items_full text = Ok pairs) \/
+  (exists p, options_to_items_full text = Raise (TokenizeError p) /\ p <= N.of_nat (length text)).
+Proof. rewrite full_refines. apply only_tokenize_error. Qed.
 
-Theorem yaml_agree_src b : wf_block b = true -> options_to_items_src (print_block b) = Ok (meaning_block b).
-Proof. rewrite options_to_items_src_eq. apply yaml_agree. Qed.
+Theorem yaml_agree_src b : wf_block b = true -> options_to_items_full (print_block b) = Ok (meaning_block b).
+Proof. rewrite full_refines. apply yaml_agree. Qed.
 
-Theorem nul_truncates_src (a b : str) : options_to_items_src (a ++ 0 :: b) = options_to_items_src a.
-Proof. rewrite !options_to_items_src_eq. apply nul_truncates. Qed.
+Theorem nul_truncates_src (a b : str) : options_to_items_full (a ++ 0 :: b) = options_to_items_full a.
+Proof. rewrite !full_refines. apply nul_truncates. Qed.
